@@ -125,6 +125,13 @@ func hostileMIDs(c *Ctx, n int) []string {
 			}
 		}
 	}
+	// multi-byte characters in front of the climb: a check that walks runes but indexes bytes (or the reverse), or
+	// that measures in runes, stops short of the separators
+	for _, ch := range []string{"é", "Å", "メ", "𝄞"} {
+		for _, k := range []int{1, 3, 8, 12, 20} {
+			mids = append(mids, strings.Repeat(ch, k)+"/../../../x", strings.Repeat(ch, k)+"/../../../outside/x", strings.Repeat(ch, k)+"\\..\\x")
+		}
+	}
 	al := []string{".", "/", "a", "\\", "\x00", "é", "..", "x", "-", "../"}
 	for i := 0; i < n; i++ {
 		var b strings.Builder
